@@ -4,6 +4,8 @@ pub uninterp spec fn recompress_spec(pt: Seq<u8>, cor: Seq<u8>) -> Option<Seq<u8
 /// crc32 is a function of the bytes fed to the hasher
 pub uninterp spec fn crc32_spec(data: Seq<u8>) -> u32;
 
+pub open spec fn all_nonzero(s: Seq<u32>) -> bool { forall|i: int| 0 <= i < s.len() ==> s[i] != 0 }
+
 pub open spec fn idat_tag() -> Seq<u8> { seq![0x49u8, 0x44u8, 0x41u8, 0x54u8] }
 
 /// PNG framing of the byte string z cut into pieces of the given sizes
